@@ -14,6 +14,10 @@ pub mod c02;
 #[cfg(kani)]
 pub mod c03;
 #[cfg(kani)]
+pub mod c06;
+#[cfg(kani)]
+pub mod c07;
+#[cfg(kani)]
 pub mod c08;
 #[cfg(kani)]
 pub mod c09;
